@@ -160,6 +160,20 @@ class ConstEnv:
                     return base.format(*[ev(a) for a in node.args])
                 except Exception:
                     pass
+        if isinstance(node, ast.Call) and isinstance(node.func, ast.Name) and node.func.id in ('tuple', 'list', 'set', 'frozenset', 'sorted', 'dict', 'len') and len(node.args) <= 1 and not node.keywords:
+            # pure constructors of the builtin containers applied to a constant
+            if not node.args:
+                return {'tuple': (), 'list': [], 'set': set(), 'frozenset': frozenset(), 'sorted': [], 'dict': {}}.get(node.func.id, 0)
+            v = ev(node.args[0])
+            if isinstance(v, (list, tuple, set, frozenset, dict, str)):
+                try:
+                    return {'tuple': tuple, 'list': list, 'set': set, 'frozenset': frozenset, 'sorted': sorted, 'dict': dict, 'len': len}[node.func.id](v)
+                except Exception:
+                    pass
+        if isinstance(node, ast.Call) and isinstance(node.func, ast.Attribute) and node.func.attr in ('keys', 'values', 'items') and not node.args and not node.keywords:
+            base = ev(node.func.value)
+            if isinstance(base, dict):
+                return list(getattr(base, node.func.attr)())
         if isinstance(node, ast.JoinedStr):
             raise NotLiteral('f-string at %s' % loc(node))
         raise NotLiteral('not a literal: %s (%s)' % (unparse(node)[:80], loc(node)))
